@@ -75,32 +75,9 @@ func (vc *VC) havocFor(h *Heap, ms *ModSet) {
 		}
 		vc.havoc(h, c)
 	}
-	fresh := ms.Fresh
-	if ms.FreshAll {
-		fresh = map[string]bool{}
-		for c := range vc.compSort {
-			if c != "$alloc" && !strings.HasPrefix(c, "Gcalls_") {
-				fresh[c] = true
-			}
-		}
-	}
-	for _, c := range sortedKeys(fresh) {
-		if ms.Old[c] {
-			continue
-		}
-		s, ok := vc.compSort[c]
-		if !ok {
-			continue
-		}
-		if !strings.HasPrefix(s, "(Array Int ") {
-			continue // a scalar component has no fresh locations: unchanged
-		}
-		old := vc.get(h, c)
-		n := vc.havoc(h, c)
-		if strings.HasPrefix(s, "(Array Int ") {
-			vc.emit(fmt.Sprintf("(assert (forall ((r Int)) (! (=> (<= r %s) (= (select %s r) (select %s r))) :pattern ((select %s r)))))", a0, n, old, n))
-		}
-	}
+	// Components the callee writes only at objects it allocates itself keep their version: the part
+	// of a component above the caller's allocation watermark is unconstrained anyway, so "same version"
+	// and "new version equal below the watermark" describe the same set of states.
 	a1 := vc.fresh("$alloc", SInt)
 	vc.emit(fmt.Sprintf("(assert (>= %s %s))", a1, a0))
 	h.m["$alloc"] = a1
@@ -262,7 +239,9 @@ func (vc *VC) applyContractOn(callee *ssa.Function, args []Term, preIn *Heap, r 
 			if err != nil {
 				panic(evalError{fmt.Sprintf("ensures of %s: %v", key, err)})
 			}
+			vc.curTags = cl.Tags
 			vc.assume(r, s)
+			vc.curTags = nil
 		}
 	}
 	return res, post
@@ -532,6 +511,13 @@ func (vc *VC) execAppend(c *ssa.CallCommon, h *Heap, reach string) Term {
 		nn = fmt.Sprint(known)
 	}
 	fits := vc.define("app_fits", SBool, app("<=", app("+", ln, nn), app("s.cap", s.S)))
+	if unsharedLocalSlice(c.Args[0]) {
+		// a local accumulator nobody else can see: in place or reallocated makes no observable difference
+		fits = "false"
+		vc.assumptions["append to a slice that is local to the function and never stored, passed on or re-sliced is modelled as reallocating (indistinguishable from appending in place)"] = true
+	} else {
+		vc.noteSplit(fits)
+	}
 	srow := app("select", e0, app("s.arr", s.S))
 	// in-place row
 	var inplace string
